@@ -223,18 +223,26 @@ func (c *Ctx) ruleFunctionCall(rule string) {
 		var ctor *ssa.Call
 		if ok {
 			ctor, _ = mi.X.(*ssa.Call)
+		} else if direct, isCall := e.(*ssa.Call); isCall {
+			ctor = direct // a constructor of the package that returns the error interface itself
 		}
-		if ctor == nil || !strings.HasSuffix(core.StaticCalleeName(&ctor.Call), ".NewFunctionCallError") || len(ctor.Call.Args) != 2 {
+		flagValue, wrapped, isCtor := c.callErrorCtor(ctor, 0)
+		if !isCtor {
 			c.R.Bad(rule, k, pos, "Call returns an error that it did not construct as a FunctionCallError",
 				"an error that merely passes through (e.g. one found inside the handler's error chain) carries somebody else's function-reported flag: a handler error is reported as a call-shape problem or vice versa")
 			continue
 		}
-		flag, isConst := ctor.Call.Args[1].(*ssa.Const)
+		flag, isConst := flagValue.(*ssa.Const)
 		if !isConst || flag.Value == nil || flag.Value.Kind() != constant.Bool {
 			c.R.Bad(rule, k, pos, "function-reported flag is not a constant", "undecided = fail")
 			continue
 		}
-		fromHandler := es.fn == fn && derivesFromValue(ctor.Call.Args[0], hcall, 0)
+		fromHandler := false
+		for _, w := range wrapped {
+			if es.fn == fn && derivesFromValue(w, hcall, 0) {
+				fromHandler = true
+			}
+		}
 		// the branch in which the recover helper reported a panic of the handler: whatever is built there describes
 		// the handler's own failure
 		if reflCallFn != nil && reflCallFn != fn && es.fn == fn {
@@ -254,6 +262,63 @@ func (c *Ctx) ruleFunctionCall(rule string) {
 		}
 	}
 	c.R.Floor(rule, 4)
+}
+
+// callErrorCtor: the call constructs a FunctionCallError - NewFunctionCallError(err, flag) itself, or a constructor of
+// the package every way out of which does (newInvalidCallError(format, args...) = NewFunctionCallError(fmt.Errorf(...),
+// false)). Returns the flag (a constant, possibly the constructor's own) and the values the wrapped error is made of, as
+// seen at the call.
+func (c *Ctx) callErrorCtor(call *ssa.Call, depth int) (flag ssa.Value, wrapped []ssa.Value, ok bool) {
+	if call == nil || depth > 2 {
+		return nil, nil, false
+	}
+	if strings.HasSuffix(core.StaticCalleeName(&call.Call), ".NewFunctionCallError") && len(call.Call.Args) == 2 {
+		return call.Call.Args[1], []ssa.Value{call.Call.Args[0]}, true
+	}
+	helper := core.StaticBody(&call.Call)
+	if helper == nil || helper.Signature.Results().Len() != 1 {
+		return nil, nil, false
+	}
+	for _, r := range core.ReturnsOf(helper) {
+		v := core.RetVal(r, 0)
+		if mi, isMI := v.(*ssa.MakeInterface); isMI {
+			v = mi.X
+		}
+		inner, isCall := v.(*ssa.Call)
+		if !isCall {
+			return nil, nil, false
+		}
+		f, w, isCtor := c.callErrorCtor(inner, depth+1)
+		if !isCtor {
+			return nil, nil, false
+		}
+		// the flag: a constant of the constructor, or one of its parameters (then the argument at this call)
+		if p, isParam := f.(*ssa.Parameter); isParam {
+			f = nil
+			for i, q := range helper.Params {
+				if q == p && i < len(call.Call.Args) {
+					f = call.Call.Args[i]
+				}
+			}
+		}
+		if f == nil || (flag != nil && !sameConst(flag, f)) {
+			return nil, nil, false
+		}
+		flag = f
+		// what the wrapped error is made of: the constructor's arguments stand for its parameters
+		_ = w
+		wrapped = append(wrapped, call.Call.Args...)
+	}
+	return flag, wrapped, flag != nil
+}
+
+func sameConst(a, b ssa.Value) bool {
+	ka, okA := a.(*ssa.Const)
+	kb, okB := b.(*ssa.Const)
+	if !okA || !okB || ka.Value == nil || kb.Value == nil {
+		return a == b
+	}
+	return ka.Value.ExactString() == kb.Value.ExactString()
 }
 
 // errorSite is a way out of a function with an error that is not the nil constant.
